@@ -73,6 +73,34 @@ func (b *builder) build(n *node, nearestKey string, exemptKeys map[string]bool) 
 		c := fmt.Sprintf("CANARYB-%d-zq", b.n)
 		b.canaries = append(b.canaries, canary{c, exemptKeys[nearestKey]})
 		return []byte(c)
+	case "d", "f", "h", "j", "u", "q", "w", "g", "o":
+		// secret strings of particular SHAPES (the walker has a shortcut for
+		// time-shaped strings; anything that merely looks numeric, date-like or
+		// structured is still a secret string and must be hashed)
+		b.n++
+		var c string
+		switch n.kind {
+		case "d":
+			c = fmt.Sprintf("90713%07d", b.n) // digits only (PIN, card number)
+		case "f":
+			c = fmt.Sprintf("48.21%07d", b.n) // decimal
+		case "h":
+			c = fmt.Sprintf("0x1F%07d", b.n)
+		case "j":
+			c = fmt.Sprintf("{\"a\":\"zq%07d\"}", b.n) // JSON text inside a string
+		case "u":
+			c = fmt.Sprintf("123e4567-e89b-12d3-a456-%012d", b.n) // uuid-like
+		case "q":
+			c = fmt.Sprintf("2026-01-02T03:04:05 %07d", b.n) // almost a timestamp
+		case "w":
+			c = fmt.Sprintf(" %07d90713 ", b.n) // digits with surrounding blanks
+		case "g":
+			c = fmt.Sprintf("-%07d90713", b.n) // negative integer
+		case "o":
+			c = fmt.Sprintf("17%08d", b.n) // plausible epoch seconds
+		}
+		b.canaries = append(b.canaries, canary{c, exemptKeys[nearestKey]})
+		return c
 	case "e":
 		return ""
 	case "n":
@@ -144,6 +172,19 @@ func TestVerifC11H(t *testing.T) {
 	if vout.Thorough() {
 		// depth 3 over a reduced leaf alphabet, in addition to full depth 2
 		ts = append(ts, trees(3, []string{"s", "n"})...)
+	}
+	// string-shape sweep: every shape at every position of small skeletons
+	for _, sh := range []string{"d", "f", "h", "j", "u", "q", "w", "g", "o"} {
+		l := &node{kind: sh}
+		for _, sk := range []*node{
+			l,
+			{kind: "M", children: []*node{l}}, {kind: "S", children: []*node{l}},
+			{kind: "M", children: []*node{{kind: "n"}, l}}, {kind: "S", children: []*node{{kind: "t"}, l}},
+			{kind: "M", children: []*node{{kind: "M", children: []*node{l}}}}, {kind: "M", children: []*node{{kind: "S", children: []*node{l}}}},
+			{kind: "S", children: []*node{{kind: "M", children: []*node{l}}}}, {kind: "S", children: []*node{{kind: "S", children: []*node{l, l}}}},
+		} {
+			ts = append(ts, sk)
+		}
 	}
 	res.Bound("trees", len(ts))
 	res.Bound("depth", depth)
